@@ -58,7 +58,12 @@ pub enum Op {
     OpenPos { user: u8, amount: Uint128, long: bool },
     ClosePos { user: u8, long: bool },
     Snapshot,
-    NewEpoch { n: u8 },
+    NewEpoch {
+        n: u8,
+        /// take the global-weight snapshot in every one of the new epochs
+        #[serde(default)]
+        snapshot: bool,
+    },
     Claim { user: u8 },
 }
 
@@ -82,7 +87,7 @@ fn funds() -> BoxedStrategy<Funds> {
 
 fn op() -> BoxedStrategy<Op> {
     prop_oneof![
-        6 => (0u8..4, 0u8..2, gen::amount(1, 1u128 << 80), funds(), proptest::option::weighted(0.4, 0u8..16), proptest::option::weighted(0.6, prop_oneof![4 => 0u16..40, 2 => 170u16..400]))
+        6 => (0u8..4, 0u8..2, gen::amount(1, 1u128 << 80), funds(), proptest::option::weighted(0.5, prop_oneof![3 => 0u8..16, 2 => 16u8..28]), proptest::option::weighted(0.6, prop_oneof![4 => 0u16..40, 2 => 170u16..400]))
             .prop_map(|(user, asset, declared, funds, start, end)| Op::OpenFlow { user, asset, declared: Uint128::new(declared), funds, start, end }),
         6 => (any::<u16>(), any::<bool>(), gen::amount(1, 1u128 << 70), proptest::bool::weighted(0.15), proptest::option::weighted(0.5, prop_oneof![3 => 0u16..30, 1 => 150u16..300]))
             .prop_map(|(sel, by_creator, amount, short, end_plus)| Op::ExpandFlow { sel, by_creator, amount: Uint128::new(amount), short, end_plus }),
@@ -91,7 +96,7 @@ fn op() -> BoxedStrategy<Op> {
         3 => (0u8..4, gen::amount(1, 1u128 << 80), any::<bool>()).prop_map(|(user, amount, long)| Op::OpenPos { user, amount: Uint128::new(amount), long }),
         1 => (0u8..4, any::<bool>()).prop_map(|(user, long)| Op::ClosePos { user, long }),
         4 => Just(Op::Snapshot),
-        5 => prop_oneof![6 => Just(1u8), 2 => 2u8..6, 1 => 20u8..60].prop_map(|n| Op::NewEpoch { n }),
+        5 => (prop_oneof![6 => Just(1u8), 2 => 2u8..6, 1 => 20u8..60], proptest::bool::weighted(0.6)).prop_map(|(n, snapshot)| Op::NewEpoch { n, snapshot }),
         5 => (0u8..4).prop_map(|user| Op::Claim { user }),
     ]
     .boxed()
@@ -126,16 +131,43 @@ impl Check for FlowFunding {
         "flow_funding_history"
     }
     fn rule(&self) -> &'static str {
-        "incentive contract created through the incentive factory (cw20 or native LP), two reward assets (native + cw20), creation fee in a different native denom, a different cw20, or the same asset as reward asset 0 (fee amounts 1, 1000, random); up to 40/120 operations {open flow with exact / fee-only / short / over-paid / no funds and default or explicit start/end (incl. > 180 epochs), expand flow (by creator or someone else, exact or short funds, optional new end), close flow by creator / factory owner / stranger, open/close positions, snapshot, 1..60 new epochs, claim}. Reference ledger outstanding[flow] is built only from transfers the harness observes: +tokens received by the contract on open/expand, −tokens paid on claims, and must equal (funded − claimed) read from the contract's storage after every step; the fee must arrive at the collector; the contract's balance of each reward asset covers the sum of outstanding; claims never exceed funded; closing pays exactly outstanding to the creator, removes the flow and is refused to strangers. Non-trivial: >= 1 expansion and >= 1 close of a flow after a claim paid something."
+        "incentive contract created through the incentive factory (cw20 or native LP), two reward assets (native + cw20), creation fee in a different native denom, a different cw20, or the same asset as reward asset 0 (fee amounts 1, 1000, random); up to 40/120 operations {open flow with exact / fee-only / short / over-paid / no funds and default or explicit start/end (incl. a start epoch in the past and > 180 epochs), expand flow (by creator or someone else, exact or short funds, optional new end), close flow by creator / factory owner / stranger, open/close positions, snapshot, 1..60 new epochs with or without a snapshot in each, claim}; one case in ten starts with the directed shape {small staker claims, flow opened with a start epoch in the past, small staker claims one epoch later, a much larger staker who never claimed claims 1..5 epochs later}. Reference ledger outstanding[flow] is built only from transfers the harness observes: +tokens received by the contract on open/expand, −tokens paid on claims, and must equal (funded − claimed) read from the contract's storage after every step; the fee must arrive at the collector; the contract's balance of each reward asset covers the sum of outstanding; claims never exceed funded; closing pays exactly outstanding to the creator, removes the flow and is refused to strangers. Non-trivial: >= 1 expansion and >= 1 close of a flow after a claim paid something."
     }
     fn strategy(&self, tier: Tier) -> BoxedStrategy<Case> {
         let max_ops = tier.pick(40usize, 120usize);
-        (cfg(), prop::collection::vec(op(), 2..max_ops))
+        let free = (cfg(), prop::collection::vec(op(), 2..max_ops))
             .prop_map(|(cfg, mut ops)| {
                 // stakers so that claims pay something
                 ops.insert(0, Op::OpenPos { user: 0, amount: Uint128::new(1_000_000), long: false });
                 ops.insert(1, Op::OpenPos { user: 1, amount: Uint128::new(3_000_000), long: true });
                 Case { cfg, ops }
+            })
+            .boxed();
+        // directed shape: a small staker claims, a flow is opened with a start epoch in the past, the
+        // small staker claims again one epoch later, and a much larger staker who never claimed
+        // claims several epochs later (a gap in the per-epoch emission record)
+        let directed = (cfg(), 0u8..2, gen::amount(1000, 1u128 << 60), 17u8..24, 4u16..20, 1u8..6, prop::collection::vec(op(), 0..12))
+            .prop_map(|(cfg, asset, declared, start, end, wait, tail)| {
+                let mut ops = vec![
+                    Op::OpenPos { user: 0, amount: Uint128::new(1_000), long: false },
+                    Op::OpenPos { user: 1, amount: Uint128::new(1_000_000), long: false },
+                    Op::NewEpoch { n: 9, snapshot: true },
+                    Op::Claim { user: 0 },
+                    Op::OpenFlow { user: 2, asset, declared: Uint128::new(declared), funds: Funds::Exact, start: Some(start), end: Some(end) },
+                    Op::OpenFlow { user: 3, asset, declared: Uint128::new(declared.saturating_mul(100)), funds: Funds::Exact, start: None, end: Some(30) },
+                    Op::NewEpoch { n: 1, snapshot: true },
+                    Op::Claim { user: 0 },
+                    Op::NewEpoch { n: wait, snapshot: true },
+                    Op::Claim { user: 1 },
+                ];
+                ops.extend(tail);
+                Case { cfg, ops }
+            })
+            .boxed();
+        let free = free;
+        prop_oneof![9 => free, 1 => directed]
+            .prop_map(|c| {
+                c
             })
             .boxed()
     }
@@ -192,7 +224,12 @@ impl Check for FlowFunding {
                     }
                     coins.sort_by(|a, b| a.denom.cmp(&b.denom));
                     let cur = iw.current_epoch();
-                    let s = start.map(|s| cur + s as u64);
+                    // 0..16: that many epochs ahead; 16..: (value − 15) epochs in the past, which the
+                    // contract accepts
+                    let s = start.map(|s| if s < 16 { cur + s as u64 } else { cur.saturating_sub(s as u64 - 15) });
+                    if matches!(start, Some(x) if *x >= 16) {
+                        rec.class("open_flow_attempt_with_past_start");
+                    }
                     let e = end.map(|e| s.unwrap_or(cur) + e as u64);
                     let inc_b = bal(&iw, &fa, &iw.incentive);
                     let col_b = bal(&iw, &iw.fee_asset, &iw.collector);
@@ -363,9 +400,13 @@ impl Check for FlowFunding {
                     let who = iw.user(2);
                     let _ = iw.exec_inc(&who, &inc::ExecuteMsg::TakeGlobalWeightSnapshot {}, &[]);
                 }
-                Op::NewEpoch { n } => {
+                Op::NewEpoch { n, snapshot } => {
                     for _ in 0..*n {
                         iw.new_epoch();
+                        if *snapshot {
+                            let who = iw.user(2);
+                            let _ = iw.exec_inc(&who, &inc::ExecuteMsg::TakeGlobalWeightSnapshot {}, &[]);
+                        }
                     }
                 }
                 Op::Claim { user } => {
